@@ -51,6 +51,8 @@ EXPECT = {
     "vec_map_serial": "{src.into_iter().map(f).collect()}",
     "vec_map_rayon": "{userayon::iter::{IntoParallelIterator,ParallelIterator};src.into_par_iter().map(f).collect()}",
     "get_mut": "{self.blocks.iter_mut().find_map(|b|B::try_from_opt_block_mut(b).ok())}",
+    "update_file_decision": "ok",
+    "rayon_join_import": "ok",
 }
 
 
@@ -80,27 +82,32 @@ def extract(repo):
         if k not in codes:
             raise ValueError("BlockType::%s not found" % k)
     out["codes"] = codes
-    anchors["grow_padding"] = norm(fn_body(md, r"fn grow_padding\(blocks: &mut BlockList, more_bytes: u64\) -> Result<\(\), \(\)> \{"))
-    anchors["shrink_padding"] = norm(fn_body(md, r"fn shrink_padding\(blocks: &mut BlockList, fewer_bytes: u64\) -> Result<\(\), \(\)> \{"))
-    anchors["checked_add"] = norm(fn_body(md, r"pub fn checked_add\(self, rhs: Self\) -> Option<Self> \{"))
-    anchors["checked_sub"] = norm(fn_body(md, r"pub fn checked_sub\(self, rhs: Self\) -> Option<Self> \{"))
-    anchors["get_mut"] = norm(fn_body(md, r"pub fn get_mut<B: OptionalMetadataBlock>\(&mut self\) -> Option<&mut B> \{"))
-    # the decision of update_file
-    uf = fn_body(md, r"pub fn update_file<F, N, E>\(")
-    if "match new_size.cmp(&old_size)" not in uf:
-        raise ValueError("update_file: `match new_size.cmp(&old_size)` not found")
-    for needle in ("Ordering::Less =>", "Ordering::Equal =>", "Ordering::Greater =>",
-                   "grow_padding(&mut blocks, old_size - new_size)", "shrink_padding(&mut blocks, new_size - old_size)",
-                   "write_blocks(&mut new_size, blocks.blocks())?"):
-        if needle not in uf:
-            raise ValueError("update_file: %r not found" % needle)
+    def anchor(name, src, rx):
+        try:
+            anchors[name] = norm(fn_body(src, rx))
+        except ValueError as e:
+            anchors[name] = "<not found: %s>" % e
+
+    anchor("grow_padding", md, r"fn grow_padding\(blocks: &mut BlockList, more_bytes: u64\) -> Result<\(\), \(\)> \{")
+    anchor("shrink_padding", md, r"fn shrink_padding\(blocks: &mut BlockList, fewer_bytes: u64\) -> Result<\(\), \(\)> \{")
+    anchor("checked_add", md, r"pub fn checked_add\(self, rhs: Self\) -> Option<Self> \{")
+    anchor("checked_sub", md, r"pub fn checked_sub\(self, rhs: Self\) -> Option<Self> \{")
+    anchor("get_mut", md, r"pub fn get_mut<B: OptionalMetadataBlock>\(&mut self\) -> Option<&mut B> \{")
+    # the decision of update_file (text anchors only: a change is a note, never a failure)
+    try:
+        uf = fn_body(md, r"pub fn update_file<F, N, E>\(")
+    except ValueError:
+        uf = ""
+    missing = [needle for needle in ("match new_size.cmp(&old_size)", "Ordering::Less =>", "Ordering::Equal =>", "Ordering::Greater =>",
+                                     "grow_padding(&mut blocks, old_size - new_size)", "shrink_padding(&mut blocks, new_size - old_size)",
+                                     "write_blocks(&mut new_size, blocks.blocks())?") if needle not in uf]
+    anchors["update_file_decision"] = "ok" if not missing else "missing: " + "; ".join(missing)
     out["update_file_flushes"] = len(re.findall(r"\.flush\(\)", uf))
-    anchors["join_serial"] = norm(fn_body(enc, r'#\[cfg\(not\(feature = "rayon"\)\)\]\s*fn join<A, B, RA, RB>\(oper_a: A, oper_b: B\) -> \(RA, RB\)[^{]*\{'))
-    anchors["try_join"] = norm(fn_body(enc, r"fn try_join<A, B, RA, RB, E>\(oper_a: A, oper_b: B\) -> Result<\(RA, RB\), E>[^{]*\{"))
-    anchors["vec_map_serial"] = norm(fn_body(enc, r'#\[cfg\(not\(feature = "rayon"\)\)\]\s*fn vec_map<T, U, F>\(src: Vec<T>, f: F\) -> Vec<U>[^{]*\{'))
-    anchors["vec_map_rayon"] = norm(fn_body(enc, r'#\[cfg\(feature = "rayon"\)\]\s*fn vec_map<T, U, F>\(src: Vec<T>, f: F\) -> Vec<U>[^{]*\{'))
-    if not re.search(r'#\[cfg\(feature = "rayon"\)\]\s*use rayon::join;', enc):
-        raise ValueError("`use rayon::join` under cfg(feature = rayon) not found")
+    anchor("join_serial", enc, r'#\[cfg\(not\(feature = "rayon"\)\)\]\s*fn join<A, B, RA, RB>\(oper_a: A, oper_b: B\) -> \(RA, RB\)[^{]*\{')
+    anchor("try_join", enc, r"fn try_join<A, B, RA, RB, E>\(oper_a: A, oper_b: B\) -> Result<\(RA, RB\), E>[^{]*\{")
+    anchor("vec_map_serial", enc, r'#\[cfg\(not\(feature = "rayon"\)\)\]\s*fn vec_map<T, U, F>\(src: Vec<T>, f: F\) -> Vec<U>[^{]*\{')
+    anchor("vec_map_rayon", enc, r'#\[cfg\(feature = "rayon"\)\]\s*fn vec_map<T, U, F>\(src: Vec<T>, f: F\) -> Vec<U>[^{]*\{')
+    anchors["rayon_join_import"] = "ok" if re.search(r'#\[cfg\(feature = "rayon"\)\]\s*use rayon::join;', enc) else "missing"
     return out, anchors
 
 
